@@ -12,6 +12,7 @@ func checkC01(c *Ctx) {
 	ruleCursorPair(c)
 	ruleProvOffsets(c)
 	ruleWSSpec(c)
+	ruleLineCountStep(c)
 	ruleLineComplete(c)
 	c.Assume("arithmetic inside padNulls, unpaddedNullLength, lineCount and fillNulls is trusted; ordering and non-overlap of ranges are not decided")
 }
@@ -45,6 +46,10 @@ func init() {
 			Old: "\tif n == 0 {\n\t\treturn b\n\t}\n\toldLen := len(b)", New: "\tif n == 0 {\n\t\treturn append([]byte(nil), b...)\n\t}\n\toldLen := len(b)", Expect: "RET-SELF"},
 		Control{Name: "offset-measures-other-prefix", Props: []string{"C01"}, File: "parse.go",
 			Old: "\tp.offset += originalLength\n\tp.lineno += lineCount(p.buf[:n])", New: "\tp.offset += originalLength\n\tp.lineno += lineCount(p.buf[:p.i])", Expect: "PROV(lineno)"},
+		Control{Name: "lineCount-final-cr-not-counted", Props: []string{"C01"}, File: "parse.go",
+			Old: "\t\t\tif i+1 >= len(text) || text[i+1] != '\\n' {", New: "\t\t\tif i+1 < len(text) && text[i+1] != '\\n' {", Expect: "LINECOUNT-STEP"},
+		Control{Name: "neg-lineCount-if-chain", Props: []string{"C01"}, File: "parse.go", Negative: true,
+			Old: "\t\tswitch b {\n\t\tcase '\\n':\n\t\t\tcount++\n\t\tcase '\\r':\n\t\t\tif i+1 >= len(text) || text[i+1] != '\\n' {\n\t\t\t\tcount++\n\t\t\t}\n\t\t}", New: "\t\tif b == '\\n' {\n\t\t\tcount++\n\t\t} else if b == '\\r' {\n\t\t\tlast := i+1 >= len(text)\n\t\t\tif last || text[i+1] != '\\n' {\n\t\t\t\tcount++\n\t\t\t}\n\t\t}"},
 		Control{Name: "neg-makeRoot-reordered-updates", Props: []string{"C01"}, File: "parse.go", Negative: true,
 			Old: "\tp.offset += originalLength\n\tp.lineno += lineCount(p.buf[:n])\n\tp.buf = p.buf[n:]\n\tp.i -= n", New: "\tp.lineno += lineCount(p.buf[:n])\n\tp.offset += originalLength\n\tp.i -= n\n\tp.buf = p.buf[n:]"},
 		Control{Name: "n-used-only-without-error", Props: []string{"C08"}, File: "parse.go",
